@@ -361,8 +361,41 @@ class Unit:
 LABEL_RX = re.compile(r'//#\s*([C0-9, ]+?)\s+([\w.\-]+)\s*$')
 
 
+def preprocess_conditionals(unit, lines):
+    out, stack = [], []   # stack of (active_before, cond_value, in_else)
+    for ln in lines:
+        s = ln.strip()
+        if s.startswith('//@ifderives') or s.startswith('//@ifhasfn'):
+            ps = s.split(None, 3)
+            src = unit.read_repo(ps[1])
+            if s.startswith('//@ifderives'):
+                _, tname, trait = s.split(None, 3)[1:]
+                start, ls, e = find_type(src, tname)
+                m = re.search(r'#\[derive\(([^)]*)\)\]', src[start:e])
+                cond = bool(m) and trait in [d.strip() for d in m.group(1).split(',')]
+            else:
+                cond = len(list(code_positions(src, r'\bfn\s+' + re.escape(ps[2]) + r'\b'))) > 0
+            unit.stats['conditional_' + ('true' if cond else 'false')] = unit.stats.get('conditional_' + ('true' if cond else 'false'), 0) + 1
+            stack.append([all(x[1] != x[2] for x in stack) if stack else True, cond, False])
+            out.append('')
+            continue
+        if s == '//@else':
+            stack[-1][2] = True
+            out.append('')
+            continue
+        if s == '//@endif':
+            stack.pop()
+            out.append('')
+            continue
+        active = all((c if not e else not c) for _, c, e in stack)
+        out.append(ln if active else '')
+    if stack:
+        raise AssembleError('unterminated //@if')
+    return out
+
+
 def process_template(unit, tpl_path):
-    lines = open(tpl_path).read().split('\n')
+    lines = preprocess_conditionals(unit, open(tpl_path).read().split('\n'))
     unit.inputs.append(tpl_path)
     i = 0
     rel_tpl = os.path.relpath(tpl_path, VERIF)
